@@ -74,6 +74,97 @@ type exec struct {
 	viol string
 }
 
+// ---------------------------------------------------------------------------
+// two TCP connections served at the same time by the relay's one Plain handler (as the
+// listener does: one goroutine per connection calling handler.Handle). Every Read is a
+// scheduling point and returns the next segment of its own stream.
+
+type segReader struct {
+	segs [][]byte
+}
+
+func (r *segReader) Read(p []byte) (int, error) {
+	vrt.Yield()
+	if len(r.segs) == 0 {
+		return 0, io.EOF
+	}
+	n := copy(p, r.segs[0])
+	if n == len(r.segs[0]) {
+		r.segs = r.segs[1:]
+	} else {
+		r.segs[0] = r.segs[0][n:]
+	}
+	return n, nil
+}
+
+var tcpStreams = [2]string{
+	"aaaa.first 1 1000\naaaa.second 2 2000\naaaa.third 3 3000",
+	"bbbbbbbb.metric.name 7 77700\nbb.x 1 2\r\nbbbbbbbbbbbbbbbbbbbb.long 8 88800\n",
+}
+
+// cut sets per stream: inside the second line, at a line end, none
+var tcpCuts = [2][][]int{{{26}, {18}, {10, 30}}, {{}, {12}, {29, 40}}}
+
+type tcpExec struct {
+	cap  *capture
+	cuts [2]int
+}
+
+func split(s string, cuts []int) (out [][]byte) {
+	prev := 0
+	for _, c := range cuts {
+		out = append(out, []byte(s[prev:c]))
+		prev = c
+	}
+	return append(out, []byte(s[prev:]))
+}
+
+func (e *tcpExec) Body() {
+	e.cap = &capture{}
+	h := input.NewPlain(e.cap)
+	for i := 0; i < 2; i++ {
+		e.cuts[i] = vrt.Choose(len(tcpCuts[i]), fmt.Sprintf("segmentation of stream %d", i))
+	}
+	for i := 0; i < 2; i++ {
+		r := &segReader{segs: split(tcpStreams[i], tcpCuts[i][e.cuts[i]])}
+		vrt.GoNamed(fmt.Sprintf("conn-%d", i), func() { h.Handle(r) })
+	}
+	vrt.Quiesce()
+}
+
+func (e *tcpExec) Check(r *vrt.Result) (string, string) {
+	h := fmt.Sprintf("two connections on one handler, segmentations %v / %v", tcpCuts[0][e.cuts[0]], tcpCuts[1][e.cuts[1]])
+	if len(r.Panics) > 0 {
+		return "panic", "panic: " + r.Panics[0].Value + "\n" + h + "\n" + r.Panics[0].Stack
+	}
+	if r.StepLimit {
+		return "steplimit", "livelock: step limit\n" + h
+	}
+	if !r.DriverDone {
+		return "blocked", fmt.Sprintf("hang\n%s\nblocked: %v", h, r.Blocked)
+	}
+	outcome := strings.Join(e.cap.lines, "|")
+	for i := 0; i < 2; i++ {
+		var got []string
+		for _, l := range e.cap.lines {
+			if strings.HasPrefix(l, tcpStreams[i][:2]) {
+				got = append(got, l)
+			}
+		}
+		var want []string
+		for _, l := range ref.Lines([]byte(tcpStreams[i])) {
+			want = append(want, string(l))
+		}
+		if strings.Join(got, "\x00") != strings.Join(want, "\x00") {
+			return outcome, fmt.Sprintf("tcp: connection %d: the dispatched lines are not exactly the lines of its stream, in order, each once: got %q, want %q (all dispatched: %q)\n%s", i, got, want, e.cap.lines, h)
+		}
+	}
+	if len(e.cap.lines) != len(ref.Lines([]byte(tcpStreams[0])))+len(ref.Lines([]byte(tcpStreams[1]))) {
+		return outcome, fmt.Sprintf("tcp: lines were dispatched that belong to neither stream: %q\n%s", e.cap.lines, h)
+	}
+	return outcome, ""
+}
+
 func (e *exec) Body() {
 	u := &udp{}
 	vrt.SetEnv("udp", u)
@@ -188,6 +279,8 @@ func main() {
 		}
 	}
 	rec(nil)
+	scns = append(scns, &vrt.Scenario{Name: "tcp: two connections, one handler", Cfg: vrt.Config{MaxSteps: 50000, Horizon: time.Hour}, Model: vrt.CostDelay, Bound: bound,
+		New: func() vrt.Exec { return &tcpExec{} }})
 	rep.Assume = []string{"the UDP socket is a model that hands the queued datagrams to ReadFrom one by one; the dispatcher yields inside Dispatch"}
 	e1 := &kit.E1{Rep: rep, Scenarios: scns, Deadline: rep.Deadline(60*time.Second, 10*time.Minute)}
 	cov := e1.Run()
